@@ -34,7 +34,8 @@ let run (_args : string list) =
     | ["B"; a; b; c] ->
       let z s = z_of_i64 (Int64.of_string s) in
       (Int64.to_string (i64_of_z (TeiBudget.calc_budget_fixed (z a) (z b) (z c))), None, None)
-    | ["S"; mode; depth; evk; tbl; hex] ->
+    | ("S" :: mode :: depth :: evk :: tbl :: rest) when L.length rest <= 1 ->
+      let hex = (match rest with [h] -> h | _ -> "") in   (* an empty script has no hex word *)
       let depth = z_of_int (int_of_string depth) and evk = n_of_int (int_of_string evk) and tbl = nat_of_int (int_of_string tbl) in
       let script = bytes_of_string (unhex hex) in
       let l1 = ref [] and l2 = ref [] and prev = ref "-" in
